@@ -42,7 +42,8 @@ FROZEN_ASSUMED = [('src/parallel.rs', "impl<'t, D: Distance> ImmutableLeafs<'t, 
 
 BUILD_CHAIN = {'trees_new': ['ImmutableTrees::new', 'ImmutableTrees::sub_tree_from_id', 'ImmutableTrees::empty', 'NodeId::unwrap_tree'], 'insert_glue': ['Writer::insert_items_in_tree'], 'insert_driver': ['Writer::insert_items_in_current_trees'], 'iict_lib': None,
                'incr_driver': ['Writer::incremental_index_large_descendants'], 'incr_lib': None,
-               'build': ['Writer::build', 'meta_roots_'], 'build_lib': None, 'inv_lib': None}
+               'build': ['Writer::build', 'meta_roots_'], 'build_lib': None, 'inv_lib': None,
+               'builder_opts': ['BuildOption::default', 'Writer::builder', 'ArroyBuilder::n_trees', 'ArroyBuilder::split_after', 'ArroyBuilder::available_memory', 'ArroyBuilder::build']}
 TMP = "impl<'a, DE: BytesEncode<'a>> TmpNodes<DE>"
 BUILD_ASSUMED = [('src/writer.rs', 'impl<D: Distance> Writer<D>', 'pre_process_items'),
                  ('src/writer.rs', 'impl<D: Distance> Writer<D>', 'used_tree_node'),
